@@ -20,6 +20,7 @@ FEATURESETS = {
     # name -> cargo arguments
     "default": ["-p", "ts-rs", "-p", "ts-rs-macros"],
     "nodefault": ["-p", "ts-rs", "-p", "ts-rs-macros", "--no-default-features"],
+    "nodefault_macros": ["-p", "ts-rs-macros", "--no-default-features"],       # the derive alone, serde-compat off (used by quick checks)
     "nowarn": ["-p", "ts-rs", "-p", "ts-rs-macros", "--features", "ts-rs/no-serde-warnings,ts-rs/import-esm"],
     "format": ["-p", "ts-rs", "-p", "ts-rs-macros", "--features", "ts-rs/format"],
     "allimpl": ["-p", "ts-rs", "-p", "ts-rs-macros", "--features",
@@ -203,7 +204,7 @@ def get_mir(featureset="default", repo=None):
                     else:
                         seen[crate] = f
                         os.rename(os.path.join(outdir, f), os.path.join(outdir, crate + ".json"))
-            for need in ("ts_rs", "ts_rs_macros"):
+            for need in (("ts_rs_macros",) if featureset.endswith("_macros") else ("ts_rs", "ts_rs_macros")):
                 if need not in seen:
                     raise InfraError("mirfacts produced no facts for crate %s" % need)
             open(done, "w").write("ok")
